@@ -22,6 +22,11 @@ def split_allocation_recursive(S, k, fixed):
     if S.mode == "sym":
         S.patch(Allocation, "_split_allocation", staticmethod(rec))
     out = S.call(REAL_SPLIT, rect, alloc, depth, levels)
+    if S.mode == "sym" and out.ok and not calls and not isinstance(out.value, Summary) and len(out.value) > 1:
+        # the body split the cell without calling itself through Allocation._split_allocation (iteration, or recursion inside a nested
+        # helper): recursion-by-contract does not apply to this shape of the code; the unrolled and bounded tasks cover it
+        from vf import loopcut
+        raise loopcut.CutError("_split_allocation no longer recurses through its own name: recursion-by-contract not applicable")
     S.ensure("split.no_raise", out.ok)
     if not out.ok:
         return
